@@ -56,13 +56,14 @@ SAMPLE_EXT = {"FFile": ".dat", "FDirectory": "", "FFsObject": ".bin", "FTextPlai
 
 
 def render_lit(d):
-    k, v = d
+    k, v = d[0], d[1]
     if k == "int":
         return str(v)
     if k == "float":
         return v
     if k == "str":
-        return "'%s'" % v
+        q = d[2] if len(d) > 2 else "'"
+        return q + v + q          # the default is the text between the quotes, verbatim
     if k == "bool":
         return "True" if v else "False"
     if k == "tuple":
@@ -128,7 +129,7 @@ def enc_ty(ty):
 
 
 def enc_lit(d):
-    k, v = d
+    k, v = d[0], d[1]
     if k == "int":
         return "(LInt %s)" % coqio.z(v)
     if k == "float":
@@ -436,15 +437,34 @@ def gen_type(rng, for_out=False):
     return ["var", rng.choice(["int", "float", "str"])]
 
 
+# quoted scalar defaults: characters that eval(), str.format, the token regex or the suffix tests could treat specially
+STR_DEFAULTS = ["foo", "a.b", "", ",", "\\t", "\\n", "\\\\", "\\x41", "^\\s*#", "C:\\new", "abc\\", "\\", "\\'", "it\"s", "it's",
+                "k=v", "a==b=", "a:b", "$x", "x?", "x+", "x*", "out|x", "modify|y", "{a}", "#c", "%s", "a,b", "(1,2)", "None",
+                "True", "1", "-", "--flag", "a'b", "u\\u00e9", "\\N{DASH}", "\\0", "r\\d+$"]
+
+
+def gen_str_default(rng):
+    v = rng.choice(STR_DEFAULTS)
+    if "'" in v and '"' not in v:
+        q = '"'
+    elif '"' in v and "'" not in v:
+        q = "'"
+    else:
+        q = rng.choice(["'", '"'])
+    return ["str", v, q]
+
+
 def gen_default(rng, ty, flagged):
-    def lit(p):
+    def lit(p, scalar=False):
+        if p == "str" and scalar:
+            return gen_str_default(rng)
         return {"int": ["int", rng.choice([0, 3, -2, 99])], "float": ["float", rng.choice(["1.5", "0.25", "-2.0"])],
                 "str": ["str", rng.choice(["foo", "a.b", ""])]}[p]
     if ty is None:
-        return lit("str") if flagged else None
+        return lit("str", True) if flagged else None
     k, v = ty
     if k == "single":
-        return lit(v) if v in PRIMS else None
+        return lit(v, True) if v in PRIMS else None
     if k == "tuple":
         return ["tuple", [lit(p) for p in v]]
     return ["tuple", [lit(v) for _ in range(rng.choice([1, 2]))]]
@@ -610,9 +630,19 @@ def run(ctx):
         for idx in itertools.product(range(V), repeat=L):
             plan.append({"exe": ["cmd"], "tokens": [vocab_small(i)[j] for i, j in enumerate(idx)]})
     n_exh = len(plan) - n_corpus
+    # every special string default, both quote characters where the text allows, as typed argument and as option argument
+    n_str = 0
+    for v in STR_DEFAULTS:
+        for q in "'\"":
+            if (q == "'" and "'" in v and '"' not in v) or (q == '"' and '"' in v and "'" not in v):
+                continue          # would be terminated early for the reader; the other quote is the natural spelling
+            d = ["default", ["str", v, q]]
+            plan.append({"exe": ["cmd"], "tokens": [mk_arg("a0", S1("str"), d),
+                                                    {"k": "opt", "flag": "--o", "inner": mk_arg("b1", None, d)}]})
+            n_str += 1
     for _ in range(nsample):
         plan.append(gen_case(rng))
-    dist = {"exhaustive_templates": n_exh, "exhaustive_max_len": exh_len, "vocabulary": V, "sampled": nsample,
+    dist = {"string_default_templates": n_str, "exhaustive_templates": n_exh, "exhaustive_max_len": exh_len, "vocabulary": V, "sampled": nsample,
             "len": {}, "token_kinds": {}, "suffix": {}, "define_errors": {}, "values_unset": 0, "argv_runs": 0,
             "argv_errors": {}}
     cases, meta = [], []
@@ -648,7 +678,9 @@ def run(ctx):
         cases.append(enc)
         meta.append({"template": text, "ast": case,
                      "fields": None if obs[0] != "ok" else [[f.name, str(f.type), repr(f.default), f.position, f.argstr,
-                                                            getattr(f, "path_template", None)] for f in obs[2]],
+                                                            getattr(f, "path_template", None)] +
+                                                           ([{"default_codepoints": [ord(ch) for ch in f.default]}]
+                                                            if isinstance(f.default, str) else []) for f in obs[2]],
                      "define_error": obs[1] if obs[0] != "ok" else None, "argv": argv})
         L = len(case["tokens"])
         dist["len"][str(L)] = dist["len"].get(str(L), 0) + 1
@@ -672,9 +704,11 @@ def run(ctx):
     out.rule = ("templates rendered from token ASTs: every sequence of length <= %d over a vocabulary of %d token shapes "
                 "(bare/typed/optional/repeated arguments, option with argument, repeated tuple option, flag, typed output) "
                 "exhaustively, plus %d sampled sequences of 1-6 tokens over a larger vocabulary (all type names, tuples, "
-                "variable tuples, defaults, $templates, option+output, a few malformed tokens); each defined task is "
+                "variable tuples, defaults, $templates, option+output, a few malformed tokens) and every quoted string default "
+                "of a %d-entry list of special texts (backslash sequences, trailing backslash, quotes, = : $ ? + * | { } # %% ,) "
+                "in both quote styles; each defined task is "
                 "given a value for every field and its argv observed. Non-trivial = distinct template text with >= 2 "
-                "tokens of >= 2 different kinds that pydra accepted" % (exh_len, V, nsample))
+                "tokens of >= 2 different kinds that pydra accepted" % (exh_len, V, nsample, len(STR_DEFAULTS)))
     out.exhaustive = True
     out.samples = meta[n_corpus + 20:n_corpus + 23] + meta[-3:]
     out.distribution = dist
